@@ -1320,6 +1320,22 @@ def rule_T8ii(ctx, qualname, rid='T8'):
                     cfg.guards(cfg.node_of(c).id) == cfg.guards(a.id):
                 if ekey(cfg, cfg.node_of(c).id, c.args[0]) == ekey(cfg, a.id, K):
                     req = True
+        # K = np.sum(counts) where the members draw `counts[k]` proposals each
+        if not req and isinstance(K, ast.Name):
+            for d in cfg.defs_at(a.id, K.id):
+                dn = cfg.nodes[d]
+                v = dn.ast.value if dn.kind == 'stmt' and isinstance(dn.ast, ast.Assign) else None
+                if isinstance(v, ast.Call) and dotted(v.func) in ('np.sum', 'sum') and v.args \
+                        and isinstance(v.args[0], ast.Name):
+                    cname = v.args[0].id
+                    for lc in ast.walk(f.node):
+                        if isinstance(lc, (ast.ListComp, ast.GeneratorExp)) and any(
+                                isinstance(x, ast.Name) and x.id == cname
+                                for x in ast.walk(lc.generators[0].iter)) and \
+                                isinstance(lc.elt, ast.Call) and \
+                                isinstance(lc.elt.func, ast.Attribute) and \
+                                lc.elt.func.attr == 'sample':
+                            req = True
         ctx.ob(rid, '%s:counter-is-request' % qualname, req, f.where(a.ast),
                'the number added to n_sample is the number of proposals requested' if req else
                'the number added to n_sample (`%s`) is not the number of proposals requested'
